@@ -34,6 +34,10 @@ CONFIG = {
         "the bytes must be identical to the fresh encode (which is compared with the model in Coq); the first differing variant replaces the recorded bytes so the model comparison and the decode-based spec see it. "
         "Only canonicalisation: BooleanArrayEncodeAll leaves the unused low bits of the last byte as found in a dirty destination (decoders are count-limited); exactly those padding bits are masked, decodes are taken from the dirty bytes. "
         "StringArrayEncodeAll with NO strings and a dirty buffer is not exercised (EncodeStringArrayBlock returns before calling it; its 2-byte shortcut leaves b[1] unwritten)",
+        "C13: WAL replay is observed the way CacheLoader.Load uses it: all entries decoded from a (truncated) segment are RETAINED and compared only after every read of the case is finished (reader and buffer pools reused many times in between), "
+        "two reads out of three go through ONE WALSegmentReader that is Reset between segments (Count() must restart from 0), and the real CacheLoader.Load is run over 2-3 segment files (some torn) checking that each file is truncated to exactly its valid prefix",
+        "C13: very long strings (2^14-1, 2^14, 2^21-1, 2^21, 2^21+1 bytes alone and inside a block, and a block of three values >= 2 MiB) are round-tripped through both real encoders and both real decoders under recover and judged on the implementation's observation ONLY "
+        "(kind 'big': lengths, a content hash and the outcome class reach Coq; the model is NOT evaluated at these sizes). The theorem string_roundtrip covers every length; the byte-exact correspondence covers strings by sampling up to 2000 bytes (65536 in the thorough tier)",
         "C13: WAL write path end to end: logs are also written through the real tsm1.WAL (WriteMulti/Delete/DeleteRange, pooled and recycled encode buffers, real segment file) with same-layout entries whose values flip between all-high and all-low, "
         "then the file is parsed frame by frame, compared with the model's serialisation and replayed by the real WALSegmentReader at every frame boundary +-4",
         "C13: simple8b selector tables, canPack cascade order, pkg numBits, MaxValue, encoding tags, WAL entry type bytes and the start divisor 1e12 are regenerated from the source (vendored jwilder module located through go.mod) on every run",
